@@ -300,6 +300,12 @@ def run(chk):
         c = prog.method(pooled, d, required=False)
         if c is not None:
             r4.expect(_norm_body(a.node) == _norm_body(c.node), "PooledClient.%s mirrors Client.%s" % (d, d), "PooledClient.%s:differs" % d, "PooledClient.%s differs from Client.%s" % (d, d), fn=c, node=c.node)
+    # ------------------------------------------------------------------ R5 a single-server HashClient is transparent
+    r5 = chk.rule("C16.R5", "a HashClient with one server hands every operation, with the caller's own key object, to that server's client, and only bypasses it after an OSError")
+    from . import rules_C12, rules_C13, report
+
+    report.include_rules(chk, r5, rules_C12, ("C12.R1", "C12.R2"), "the routed client is the hasher's answer for this call and the key passed on is this call's own key")
+    report.include_rules(chk, r5, rules_C13, ("C13.R1",), "a server that answered (or failed with something other than an OSError) is not marked as failing, so later calls are still sent to it like a plain Client would")
     chk.assume("the inner object of the wrappers is a Client (client_class); user-supplied client classes are outside the property")
 
 
